@@ -1241,6 +1241,11 @@ def expires_after(
     )
 
     def cache_validation_callback(metadata):
+        if "time" not in metadata:
+            # The metadata of this entry is missing or unreadable (e.g. the
+            # process was killed before it was written): consider the entry
+            # as expired and recompute it.
+            return False
         computation_age = time.time() - metadata["time"]
         return computation_age < delta.total_seconds()
 
